@@ -543,6 +543,8 @@ class NF:
             return sc.store[f"{base.canon()}.{e.attr}"]
         if ba is not None and (ba, e.attr) in sc.attr_alias:
             return sc.attr_alias[(ba, e.attr)]
+        if ba is not None and e.attr in self.meta.get(ba, {}).get("record", {}):
+            return self.meta[ba]["record"][e.attr]
         if self.field_order and e.attr in self.field_order and ba is not None and not ba.endswith(")") and "." not in ba.split("[")[0].replace("rl_blox", ""):
             # namedtuple batch field -> positional projection (only for plain parameter-like bases named *batch*)
             if "batch" in ba.lower():
@@ -923,6 +925,16 @@ class NF:
             if r is not None:
                 return r
         q = f"{mi.name}.{node.name}" if hasattr(node, "name") else qual
+        fields = self._record_fields(node)
+        if fields is not None and "**" not in kws and not any(isinstance(a_, ast.Starred) for a_ in e.args) and len(args) + len(kws) <= len(fields) and set(kws) <= set(fields):
+            # construction of a plain record (NamedTuple / dataclass / namedtuple(...)): field reads project the constructor arguments
+            rec = dict(zip(fields, args))
+            if not (set(rec) & set(kws)):
+                rec.update(kws)
+                out = self._mkcall(q, [rec[f] for f in fields if f in rec], {})
+                if out.single_atom() in self.meta and len(rec) == len(fields):
+                    self.meta[out.single_atom()]["record"] = rec
+                return out
         if isinstance(node, ast.FunctionDef) and kws and "**" not in kws and not any(isinstance(a_, ast.Starred) for a_ in e.args):
             # one canonical call shape: keywords that continue the positional prefix become positional arguments
             params = positional_params(node)
@@ -932,6 +944,24 @@ class NF:
                 a2.append(k2.pop(params[len(a2)]))
             args, kws = a2, k2
         return self._mkcall(q, args, kws)
+
+    @staticmethod
+    def _record_fields(node):
+        """Field names (in constructor order) of a NamedTuple / dataclass class or a `namedtuple("N", [...])` assignment, else None."""
+        if isinstance(node, ast.ClassDef):
+            is_nt = any((isinstance(b, ast.Name) and b.id == "NamedTuple") or (isinstance(b, ast.Attribute) and b.attr == "NamedTuple") for b in node.bases)
+            is_dc = any("dataclass" in ast.unparse(d) for d in node.decorator_list)
+            if not (is_nt or is_dc) or any(isinstance(m, ast.FunctionDef) and m.name in ("__init__", "__new__", "__post_init__") for m in node.body):
+                return None
+            return [m.target.id for m in node.body if isinstance(m, ast.AnnAssign) and isinstance(m.target, ast.Name)]
+        if isinstance(node, ast.Assign) and isinstance(node.value, ast.Call) and isinstance(node.value.func, (ast.Name, ast.Attribute)) \
+                and (node.value.func.id if isinstance(node.value.func, ast.Name) else node.value.func.attr) == "namedtuple" and len(node.value.args) == 2:
+            f = node.value.args[1]
+            if isinstance(f, (ast.List, ast.Tuple)) and all(isinstance(x, ast.Constant) and isinstance(x.value, str) for x in f.elts):
+                return [x.value for x in f.elts]
+            if isinstance(f, ast.Constant) and isinstance(f.value, str):
+                return f.value.replace(",", " ").split()
+        return None
 
     def inlinable(self, fn: ast.FunctionDef) -> bool:
         rets = [n for n in ast.walk(fn) if isinstance(n, ast.Return)]
